@@ -111,13 +111,16 @@ class History:
         self.known = collections.Counter()
         self.violation: Optional[Violation] = None
         self.retained: List[Tuple[Any, str]] = []
+        self.request_memory: Dict[str, Any] = {}
+        self.reoffered: Dict[str, set] = {}  # request id -> DispatchTrip instances that were under way when it changed fleet
         self.dead = False  # set when HIVE crashed outside the property's mechanism: rest of the case is skipped
         self.anchor_files: Tuple[str, ...] = tuple(spec.get("_anchor_files", ()))
         self.strict_plugs = (spec.get("dispatcher") or {}).get("charging_search_type") == "shortest_time_to_charge"
         Scripted, Capture = _mk_scripted(), _mk_capture()
         self.scripted = [Scripted(f"g{i}") for i in range(int(spec.get("n_scripted", 1)))]
         gens: List[Any] = list(self.scripted)
-        self.builtin = bool(spec.get("builtin"))
+        # n_scripted == 0: a world run by the built-in generators alone (instr / rush directives are then ignored and counted)
+        self.builtin = bool(spec.get("builtin")) or not self.scripted
         self.world = World(spec, gens=gens, builtin_first=self.builtin)
         self.rp = self.world.rp
         self.env = self.rp.e
@@ -134,6 +137,15 @@ class History:
     @property
     def sim(self):
         return self.rp.s
+
+    def mid(self, before):
+        """the state the instruction generators were handed in the last step (after pre-step and driver updates); every
+        generator of a step sees the same state. Falls back to `before` when no observing generator is installed."""
+        for g in self.generators:
+            s = getattr(g, "seen", None)
+            if s is not None:
+                return s
+        return before
 
     def close(self) -> None:
         self.world.close()
@@ -166,6 +178,10 @@ class History:
             self._op_relocate(*op[1:])
         elif kind == "reinject":
             self._op_reinject(*op[1:])
+        elif kind == "restate":
+            self._op_restate(*op[1:])
+        elif kind == "reoffer":
+            self._op_reoffer(*op[1:])
         elif kind == "retain":
             self._op_retain()
         elif kind == "branch":
@@ -297,6 +313,9 @@ class History:
 
     # ------------------------------------------------------------------ ops
     def _op_instr(self, gen: int, kind: int, vclass: int, vsel: int, tclass: int, tsel: int, csel: int) -> None:
+        if not self.scripted:
+            self.stats["directives_ignored_no_scripted_generator"] += 1
+            return
         i = self.build_instruction(kind, vclass, vsel, tclass, tsel, csel)
         self.scripted[gen % len(self.scripted)].queue.append(i)
         self.stats["instructions_queued"] += 1
@@ -314,7 +333,7 @@ class History:
         c = plugs[csel % len(plugs)]
         cand = [v for v in sorted(sim.vehicles.values(), key=lambda x: x.id)
                 if sname(v) in ("Idle", "ReserveBase", "Repositioning") and self.env.mechatronics[v.mechatronics_id].valid_charger(s.state[c].charger)]
-        for v in cand[: max(1, k)]:
+        for v in (cand[: max(1, k)] if self.scripted else ()):
             self.scripted[0].queue.append(I.DispatchStationInstruction(v.id, s.id, c))
             self.stats["instructions_queued"] += 1
 
@@ -331,6 +350,8 @@ class History:
             return
         self.step_no += 1
         self.stats["steps"] += 1
+        for r in before.s.requests.values():  # what a client that watched the last state remembers
+            self.request_memory[r.id] = r
         events = [e for chunk in self.cap.steps[n0:] for e in chunk]
         for m in self.monitors:
             self.report(m.after_step(self, before.s, self.rp.s, events))
@@ -471,6 +492,63 @@ class History:
         self.rp = self.rp._replace(s=res.unwrap())
         self.stats["requests_injected"] += 1
         self.flag("request_injected")
+
+    def _op_reoffer(self, rsel: int, fsel: int) -> None:
+        """a request source of its own re-offers a waiting request to another fleet (Request.set_membership + modify_request_safe),
+        preferably one that already has a vehicle on its way. Vehicles that were travelling to it before keep travelling
+        (they started when they had access); what matters is what starts afterwards."""
+        from returns.result import Success
+        from nrel.hive.state.simulation_state import simulation_state_ops as ops
+
+        fl = self.spec.get("fleet_ids") or []
+        rs = sorted(self.sim.requests.values(), key=lambda r: (r.dispatched_vehicle is None, r.id))
+        if not fl or not rs:
+            return
+        r = rs[rsel % min(len(rs), 4)]
+        ids = (fl[fsel % len(fl)],)
+        if set(ids) == set(r.membership.memberships):
+            return
+        try:
+            with quiet():
+                res = ops.modify_request_safe(self.sim, r.set_membership(ids))
+        except Exception as exc:
+            self._crashed(exc)
+            return
+        if isinstance(res, Success):
+            under_way = {v.vehicle_state.instance_id for v in self.sim.vehicles.values() if sname(v) == "DispatchTrip" and v.vehicle_state.request_id == r.id}
+            self.reoffered.setdefault(r.id, set()).update(under_way)
+            self.rp = self.rp._replace(s=res.unwrap())
+            self.stats["requests_reoffered"] += 1
+            if under_way:
+                self.flag("request_reoffered_while_vehicle_under_way")
+
+    def _op_restate(self, sel: int) -> None:
+        """a client that keeps its own copies of the requests (a pricing agent, say) hands one back through the generic
+        entity API (modify_entity_safe): the current object if the request is still waiting (a no-op), else its stale copy
+        of a request that has since been picked up or cancelled (HIVE must refuse it). Whatever HIVE answers is adopted."""
+        from returns.result import Success
+        from nrel.hive.state.simulation_state import simulation_state_ops as ops
+
+        for r in self.sim.requests.values():
+            self.request_memory[r.id] = r
+        ids = sorted(self.request_memory.keys())
+        if not ids:
+            return
+        rid = ids[sel % len(ids)]
+        stale = rid not in self.sim.requests
+        obj = self.request_memory[rid] if stale else self.sim.requests[rid]
+        try:
+            with quiet():
+                res = ops.modify_entity_safe(self.sim, obj)
+        except Exception as exc:
+            self._crashed(exc)
+            return
+        self.stats["stale_request_updates_tried" if stale else "current_request_handed_back"] += 1
+        if isinstance(res, Success):
+            self.rp = self.rp._replace(s=res.unwrap())
+            if stale:
+                self.stats["stale_request_updates_accepted"] += 1
+                self.flag("stale_request_update_accepted")
 
     def _op_reinject(self, gsel: int) -> None:
         """co-simulation style: take one of the installed instruction generators and hand the very same object back
